@@ -364,6 +364,18 @@ func (m *Model) applyChangePeer(r *Region, t interface{ String() string }, peer 
 		r.ConfVer++
 		return CmdResult{Applied: true, Kind: "add-node"}
 	case "AddLearnerNode":
+		// AddLearnerNode for an existing voter demotes it (a follower only)
+		if p := r.PeerByID(peer.GetId()); p != nil && p.StoreID == peer.GetStoreId() && p.Role == metapb.PeerRole_Voter {
+			if p.ID == r.Leader {
+				return CmdResult{Kind: "demote-follower", Why: "refused: peer is the leader"}
+			}
+			if r.Voters() <= 1 {
+				return CmdResult{Kind: "demote-follower", Why: "refused: last voter"}
+			}
+			p.Role = metapb.PeerRole_Learner
+			r.ConfVer++
+			return CmdResult{Applied: true, Kind: "demote-follower"}
+		}
 		if r.PeerByID(peer.GetId()) != nil || r.PeerOnStore(peer.GetStoreId()) != nil {
 			return CmdResult{Kind: "add-learner", Why: "peer or store already present"}
 		}
